@@ -80,6 +80,8 @@ def _bool_of(expr, atoms):
 
 
 def run(ck, m):
+    from rules.common import rule_memo_safety
+    rule_memo_safety(ck, m, "MEMO", "C19")          # first: a memoised helper also hides the code it wraps from the rules below
     lits = _regex_literals(m, CM)
     for nm in ("_FORMAT_SPEC", "_NO_VERTICAL_SPEC", "_ALPHA_BG_FORMAT"):
         ck.need(nm in lits, f"regex literal {nm} not found in {CM}")
@@ -253,6 +255,9 @@ def run(ck, m):
         if un is None:
             continue
         ck.ob("R3", un, arity == len(pats), f"{q}: {len(pats)} field patterns but {arity} fields unpacked", stmt=f"{q}: patterns == unpack arity")
+        rets_ = [r for r in body_walk(chk) if isinstance(r, ast.Return) and r.value is not None]
+        ck.ob("R3", chk, bool(rets_) and all(isinstance(r.value, ast.Call) and (call_name(r.value) or "").endswith("_check_style_args") for r in rets_),
+              f"{q}._check_style_format_spec must return through cls._check_style_args(...) (value ranges - e.g. the signed 32-bit z-index - are validated there, as for draw())", stmt=f"{q}: specifier values validated by _check_style_args")
         sa = next((st for st in cls.body if isinstance(st, ast.Assign) and norm(st.targets[0]) == "_style_args"), None)
         ck.need(sa is not None and isinstance(sa.value, ast.Dict), f"{q}._style_args dict literal not found")
         sa_keys = {k.value: v for k, v in zip(sa.value.keys, sa.value.values)}
@@ -314,8 +319,6 @@ def run(ck, m):
                 ck.ob("R4", r, (cn or "").split(".")[-1] in ok_raisers, f"{q} raises {cn}, not the documented ValueError/TypeError/StyleError", stmt=f"{q}: {short(r, 60)}")
     ck.expect(nfn >= 7, f"expected >= 7 specifier-checking functions, found {nfn}")
 
-    from rules.common import rule_memo_safety
-    rule_memo_safety(ck, m, "MEMO", "C19")
 
 
 K, T = "image/kitty.py", "image/iterm2.py"
